@@ -15,8 +15,8 @@ regular expressions over the (regular) C text.  Nothing is compiled or imported.
 * searchPathSubdir      the directory appended to GOBJECT_INTROSPECTION_LIBDIR
 * envVar                the environment variable read by init_globals
 * selfName/selfVersion  GIREPOSITORY_TYPELIB_NAME / _VERSION (the special-cased namespace)
-* repoShape             the order of the checks of require_internal / get_registered_status that the
-                        model mirrors, as tokens; a `decide` theorem compares it with the expected list.
+* repoShape             the order of the checks of require_internal / get_registered_status / the lazy->eager
+                        transition of register_internal that the model mirrors, as tokens; a `decide` theorem compares it with the expected list.
 A changed literal makes `C17_source_shape` fail to re-check."""
 import os
 import re
@@ -118,6 +118,22 @@ def main():
                                body_of(src, 'find_namespace_latest'), 'sort call'))
     shape.append('dep-require:' + one(r'g_irepository_require \(repository, dependency_namespace, (\w+),\s*(\w+), error\)',
                                       dep_fn, 'dependency require')[0])
+
+    # register_internal: the lazy -> eager transition (the key found in the lazy table is taken out
+    # WITHOUT running the key destructor and re-used for the table of loaded typelibs)
+    reg = body_of(src, 'register_internal')
+    pos = 0
+    trans = []
+    for tok, pat in [('deps-first', r'if \(!load_dependencies_recurse \(repository, typelib, error\)\)\s*return NULL;'),
+                     ('lookup-lazy-key', r'g_hash_table_lookup_extended \(repository->priv->lazy_typelibs,\s*namespace,\s*'
+                                         r'\(gpointer\)&key, &value\)'),
+                     ('steal', r'\)\s*g_hash_table_steal \(repository->priv->lazy_typelibs, key\);'),
+                     ('else-build-key', r'else\s*key = build_typelib_key \(namespace, source\);'),
+                     ('insert-eager', r'g_hash_table_insert \(repository->priv->typelibs, key, \(void \*\)typelib\);')]:
+        m = re.compile(pat).search(reg, pos)
+        trans.append(tok if m else 'MISSING:' + tok)
+        pos = m.end() if m else pos
+    shape.append('transition:' + ','.join(trans))
 
     text = '''-- GENERATED by translators/gen_repo.py from girepository/girepository.c and girepository.h. Do not edit.
 namespace GIVerif.Gen.Repo
